@@ -1,8 +1,8 @@
 #!/bin/bash
-# usage: dbg_patch.sh <dir with patch.diff> <check ids...>   -> applies the patch in /tmp/wt/dbg, runs the checks, prints violation lines
+# usage: dbg_patch.sh <dir with patch.diff> <check ids...>   -> applies the patch in /tmp/wt/dbg2, runs the checks, prints violation lines
 d=$(realpath $1); shift
-git -C /repo worktree remove --force /tmp/wt/dbg 2>/dev/null
-git -C /repo worktree add -q --detach /tmp/wt/dbg HEAD && git -C /tmp/wt/dbg apply $d/patch.diff || exit 2
+git -C /repo worktree remove --force /tmp/wt/dbg2 2>/dev/null
+git -C /repo worktree add -q --detach /tmp/wt/dbg2 HEAD && git -C /tmp/wt/dbg2 apply $d/patch.diff || exit 2
 for c in "$@"; do
-  VERIF_REPO=/tmp/wt/dbg VERIF_OUT=/tmp/wt/dbg_out /verif/check $c 2>&1 | grep -v "^  rule\|^VIOLATION\|^KNOWN\|^facts" | cut -c1-${COLS:-330}
+  VERIF_REPO=/tmp/wt/dbg2 VERIF_OUT=/tmp/wt/dbg2_out $(dirname $0)/../check $c 2>&1 | grep -v "^  rule\|^VIOLATION\|^KNOWN\|^facts" | cut -c1-${COLS:-330}
 done
